@@ -1016,4 +1016,36 @@ theorem nqParse_refines (doc : Str) (qs : List Quad) (h : NQ.parseDoc doc = some
     doc [] qs rfl (by simpa [NQ.parseDoc] using h)
 
 
+/-! ### the IRIREF token, exactly -/
+
+theorem spanP_all (p : Char → Bool) : ∀ (cs : Str), (spanP p cs).1.all p = true
+  | [] => rfl
+  | c :: cs => by
+    unfold spanP
+    split
+    · rename_i h; simp [h, spanP_all p cs]
+    · rfl
+
+/-- the IRIREF token of rdflib's parser, exactly: any run of characters other than #x00-#x20 `<` `>` `"` between `<` and the
+    next `>` (the grammar's [8] additionally excludes `{ } | ^ backquote` and admits a backslash only as UCHAR) -/
+theorem matchUriref_iff (cs u rest : Str) :
+    matchUriref ('<' :: cs) = some (u, rest) ↔ (u.all uriChar = true ∧ cs = u ++ '>' :: rest) := by
+  constructor
+  · intro h
+    simp only [matchUriref] at h
+    split at h
+    · rename_i u' rest' hs
+      simp only [Option.some.injEq, Prod.mk.injEq] at h
+      have h1 := spanP_all uriChar cs
+      have h2 := spanP_split uriChar cs
+      rw [hs] at h1 h2
+      exact ⟨h.1 ▸ h1, by rw [← h2, h.1, h.2]⟩
+    · cases h
+  · rintro ⟨hall, hcs⟩
+    have hsp : spanP uriChar (u ++ '>' :: rest) = (u, '>' :: rest) :=
+      spanP_append uriChar u _ hall (fun c r hc => by
+        simp only [List.cons.injEq] at hc
+        rw [← hc.1]; decide)
+    simp only [matchUriref, hcs, hsp]
+
 end RV.C05
